@@ -547,6 +547,18 @@ class ExprMixin:
                     b, bt = self.ex(e.args[1])
                     unify(at, bt)
                     return '%s %s %s' % (name, par(a), par(b)), at
+                if name == 'swap' and len(e.args) == 2 and self.resolve_free('swap', e.line, must=False) is None:
+                    # std::mem::swap(&mut a, &mut b)
+                    pa, pb = self.try_place(e.args[0]), self.try_place(e.args[1])
+                    if pa is None or pb is None: self.fail('swap of non-place expressions', e.line)
+                    if not unify(pa.ty, pb.ty): self.fail('swap of places of different types', e.line)
+                    ta, tb = self.tmp('swap'), self.tmp('swap')
+                    self.emit('let %s := %s' % (ta, pa.get()))
+                    self.emit('let %s := %s' % (tb, pb.get()))
+                    pa._cache = None; pb._cache = None
+                    pa.set(tb)
+                    pb.set(ta)
+                    return '()', UNIT
                 if name in NEWTYPES:
                     t, ty = self.ex(e.args[0])
                     if not unify(ty, NEWTYPE_INNER[NEWTYPES[name][0]]):
